@@ -19,6 +19,8 @@ CATS = {
     3: dict(name="throwing_move", tc=False, decl=None, nmc=False, nma=False, tdes=False),
     4: dict(name="opted_out", tc=True, decl=False, nmc=True, nma=True, tdes=True),
     5: dict(name="TR_throwing_move", tc=False, decl=True, nmc=False, nma=False, tdes=False),
+    # trivial (defaulted) copy/move constructors and destructor, but user-provided assignment operators: not trivially copyable, no declaration -> not relocatable
+    6: dict(name="user_assignment_only", tc=False, decl=None, nmc=True, nma=True, tdes=True),
 }
 
 PRELUDE = r'''
@@ -57,6 +59,12 @@ template <int SZ, int AL> struct alignas(AL) El<SZ, AL, 5> {
   El(); El(const El &); El(El &&) noexcept(false); El &operator=(const El &); El &operator=(El &&) noexcept(false); ~El();
   typedef std::true_type trivially_relocatable;
 };
+template <int SZ, int AL> struct alignas(AL) El<SZ, AL, 6> {
+  char b[SZ];
+  El() = default; El(const El &) = default; El(El &&) = default; ~El() = default;
+  El &operator=(const El &) noexcept; El &operator=(El &&) noexcept;
+};
+struct FixedNonTR { FixedNonTR(); FixedNonTR(const FixedNonTR &); FixedNonTR(FixedNonTR &&) noexcept; ~FixedNonTR(); int x; };
 struct StatefulNonTrivialCmp {  // a comparator that is not trivially relocatable
   int dir;
   StatefulNonTrivialCmp(); StatefulNonTrivialCmp(const StatefulNonTrivialCmp &); StatefulNonTrivialCmp &operator=(const StatefulNonTrivialCmp &); ~StatefulNonTrivialCmp();
@@ -73,9 +81,12 @@ struct EmptyNonTrivialCmp {  // empty but with a user-provided copy constructor:
 template <class V> struct SwapNoexcept { static const bool value = noexcept(std::declval<V &>().swap(std::declval<V &>())); };
 
 template <class T> void row_T(const char *t) {
-  printf("T %s sizeof=%zu alignof=%zu tr=%d tcopy=%d tdes=%d nmc=%d nma=%d pair_self=%d pair_int=%d\n", t, sizeof(T), alignof(T), (int)amc::is_trivially_relocatable<T>::value,
+  printf("T %s sizeof=%zu alignof=%zu tr=%d tcopy=%d tdes=%d nmc=%d nma=%d pair_self=%d pair_int=%d", t, sizeof(T), alignof(T), (int)amc::is_trivially_relocatable<T>::value,
          (int)std::is_trivially_copyable<T>::value, (int)std::is_trivially_destructible<T>::value, (int)std::is_nothrow_move_constructible<T>::value,
          (int)std::is_nothrow_move_assignable<T>::value, (int)amc::is_trivially_relocatable<std::pair<T, T> >::value, (int)amc::is_trivially_relocatable<std::pair<T, int> >::value);
+  printf(" pair_with_nonTR=%d pair_nonTR_first=%d pair_nested=%d tr_const=%d\n", (int)amc::is_trivially_relocatable<std::pair<T, FixedNonTR> >::value,
+         (int)amc::is_trivially_relocatable<std::pair<FixedNonTR, T> >::value, (int)amc::is_trivially_relocatable<std::pair<std::pair<T, T>, int> >::value,
+         (int)amc::is_trivially_relocatable<const T>::value);
 }
 template <class T, unsigned long long N, class S> void row_SV(const char *t, const char *s) {
   typedef amc::SmallVector<T, N, amc::allocator<T>, S> SV;
@@ -182,7 +193,7 @@ def st_size(name):
 def expect_T(sz, al, cat):
     tr = is_tr(cat)
     return {"sizeof": sz, "alignof": al, "tr": int(tr), "tcopy": int(CATS[cat]["tc"]), "tdes": int(CATS[cat]["tdes"]), "nmc": int(CATS[cat]["nmc"]), "nma": int(CATS[cat]["nma"]),
-            "pair_self": int(tr), "pair_int": int(tr)}
+            "pair_self": int(tr), "pair_int": int(tr), "pair_with_nonTR": 0, "pair_nonTR_first": 0, "pair_nested": int(tr)}
 
 
 def expect_moves(cat, n):
